@@ -294,7 +294,6 @@ package remote
 //@   modifies *c.C.cl
 //@ extern func (*remoteDelivery).Close#ReleaseDest$call(g *limits.Group, domain string)
 //@ extern func (*remoteDelivery).Close#ReleaseMsg$call(g *limits.Group, addr net.IP, sourceDomain string)
-//@ extern func (*pool.P).Return(p *pool.P, key string, c pool.Conn)
 //@ func (*remoteDelivery).Close
 //@   prop C05
 //@   modifies *
